@@ -217,7 +217,7 @@ def run_workers(exe, prop, seed, total, chunk, want_hashes=False, timeout_per_ch
                     v = rep["violation"]
                     if res.violation is None or v["index"] < res.violation.get("family", 1 << 62):
                         res.violation = {"how": "report", "family": v["index"], "violations": v["violations"],
-                                         "replay": v["family"]}
+                                         "replay": v["family"], "lo": lo}
                     stop = True
             elif rc == 77:
                 trap = ""
@@ -230,7 +230,7 @@ def run_workers(exe, prop, seed, total, chunk, want_hashes=False, timeout_per_ch
                     trap = [l for l in err.splitlines() if l.startswith("TRAP")][-1] if "TRAP" in err else ""
                 info = parse_trap(trap)
                 if res.violation is None or info.get("family", 1 << 62) < res.violation.get("family", 1 << 62):
-                    res.violation = dict(info, how="trap", line=trap)
+                    res.violation = dict(info, how="trap", line=trap, lo=lo)
                 stop = True
             else:
                 raise HarnessError("worker %d..%d exited with status %s\n%s" % (lo, hi, rc, err[-4000:]))
@@ -336,12 +336,96 @@ def describe(viol, parsed):
     return "violation"
 
 
+def run_range(exe, prop, seed, lo, hi, gen_args, timeout=900):
+    """Runs families [lo, hi) in ONE fresh worker process. Returns (rc, report or None, trap info or None)."""
+    os.makedirs(SCRATCH, exist_ok=True)
+    out = os.path.join(SCRATCH, "range-%s-%d-%d-%d.json" % (prop, os.getpid(), lo, hi))
+    cmd = [exe, "run", "--prop", prop, "--seed", str(seed), "--from", str(lo), "--to", str(hi), "--out", out] + list(gen_args)
+    try:
+        r = subprocess.run(cmd, capture_output=True, text=True, timeout=timeout, env=ENV_BASE)
+    except subprocess.TimeoutExpired:
+        return ("hang", None, None)
+    rep = None
+    trap = None
+    try:
+        with open(out) as f:
+            rep = json.load(f)
+    except Exception:
+        pass
+    if r.returncode == 77:
+        try:
+            with open(out + ".trap") as f:
+                trap = parse_trap(f.read().strip())
+        except Exception:
+            trap = {}
+    for suf in ("", ".trap", ".progress", ".sigs"):
+        try:
+            os.remove(out + suf)
+        except OSError:
+            pass
+    return (r.returncode, rep, trap)
+
+
+def range_fails_at(exe, prop, seed, lo, fam, gen_args):
+    rc, rep, trap = run_range(exe, prop, seed, lo, fam + 1, gen_args)
+    if rc == 1 and rep and rep.get("violation") and rep["violation"]["index"] == fam:
+        v = rep["violation"]["violations"][0][1]
+        return "%s: %s" % (v["kind"], v["what"])
+    if rc == 77 and trap is not None and trap.get("family") == fam:
+        return "hardware trap in family %d" % fam
+    return None
+
+
+def range_replay(exe, prop, seed, viol):
+    """Returns (path, text) when the violation reproduces from the worker's
+    range in a fresh process (i.e. it depends on earlier calls), else None."""
+    lo, fam, gen_args = viol["lo"], viol["family"], viol.get("gen_args", [])
+    text = range_fails_at(exe, prop, seed, lo, fam, gen_args)
+    if text is None:
+        return None
+    # shrink the history: the latest start that still reproduces (bisection
+    # first, it is usually monotone; then a linear confirmation)
+    best = lo
+    a, b = lo, fam
+    for _ in range(24):
+        if a >= b:
+            break
+        mid = (a + b + 1) // 2
+        if range_fails_at(exe, prop, seed, mid, fam, gen_args) is not None:
+            best = mid
+            a = mid
+        else:
+            b = mid - 1
+    os.makedirs(REPLAYS, exist_ok=True)
+    path = os.path.join(REPLAYS, "%s-seed%d-range%d-%d.json" % (prop, seed, best, fam + 1))
+    with open(path, "w") as f:
+        json.dump({"substrate": {"range": {"prop": prop, "seed": seed, "from": best, "to": fam + 1, "family": fam,
+                                           "gen_args": gen_args}},
+                   "note": "the violation in family %d only appears after families %d..%d ran in the same process: "
+                           "the library carries state from one call to the next" % (fam, best, fam - 1)}, f)
+    return path, ("%s  [only after families %d..%d ran in the same process; family %d alone is clean in a fresh "
+                  "process: the answer depends on earlier calls]" % (text, best, fam - 1, fam))
+
+
 def handle_violation(exe, prop, seed, viol):
     """Minimise, replay in a fresh process, report. Returns (path, text) or
     raises HarnessError when the violation does not reproduce."""
     raw = materialise(exe, prop, seed, viol)
     code, parsed, err = run_replay(exe, raw, timeout=(25 if viol["how"] == "hang" else 120))
     reproduced = code in (1, 77, "hang")
+    if not reproduced and "lo" in viol and viol.get("family") is not None:
+        # The family alone is clean in a fresh process. Either the harness is
+        # not deterministic, or the LIBRARY carries state from one call to the
+        # next (a cache, a memo, a counter a change introduced) and the answer
+        # depends on the calls made earlier in the worker process. Decide by
+        # re-running the worker's own range in a fresh process.
+        rng = range_replay(exe, prop, seed, viol)
+        if rng is not None:
+            try:
+                os.remove(raw)
+            except OSError:
+                pass
+            return rng
     if not reproduced:
         raise HarnessError(
             "violation in family %s did not reproduce from its replay file %s (replay exit %s): nondeterminism in the "
@@ -436,6 +520,13 @@ def replay_any(prop, path):
     if sub.get("wasm"):
         import wasm as W
         return W.replay(path, sub.get("owner", prop))
+    if "range" in sub:
+        r = sub["range"]
+        exe = build("dbg")
+        text = range_fails_at(exe, r["prop"], r["seed"], r["from"], r["family"], r.get("gen_args", []))
+        if text is None:
+            return False, "clean"
+        return True, text
     if "flavours" in sub:
         hashes = []
         for fl in sub["flavours"]:
